@@ -349,6 +349,38 @@ def check_dispatch(ctx):
                 expect(el.root.get_element(q), cls, f"root-descent/{label}", qn)
                 if el.children:
                     pass
+        # receivers with their own get_elements (Table, Row): multi-tag queries must classify every hit
+        from odfdo import Cell, Row, Table
+
+        table = Table("D")
+        row = Row()
+        cell = Cell()
+        for qn, cls, ident in holders:
+            el = Element.from_tag(qn)
+            el.set_attribute("text:id", "c" + ident)
+            Element.append(cell, el)
+        Element.append(row, cell)
+        Element.append(table, row)
+        tdoc = Document("spreadsheet")
+        tdoc.body.clear()
+        tdoc.body.append(table)
+        want = {"c" + ident: (qn, cls) for qn, cls, ident in holders}
+        for recv_name, recv in (("Table", tdoc.body.get_table(0)), ("Row", tdoc.body.get_table(0).get_elements("table:table-row")[0]),
+                                ("Cell", tdoc.body.get_element("descendant::table:table-cell")), ("Body", tdoc.body)):
+            for query in ("descendant::*", "descendant::*[@text:id]"):
+                hits = recv.get_elements(query)
+                seen = 0
+                for h in hits:
+                    ident = h.get_attribute_string("text:id")
+                    if ident in want:
+                        seen += 1
+                        qn, cls = want[ident]
+                        expect(h, cls, f"{recv_name}.get_elements({query})", qn)
+                ctx.check(seen == len(want), ("C12", "dispatch", "lookup"), f"{recv_name}.get_elements({query!r}) returned {seen} of {len(want)} elements", case)
+            for h in recv.xpath("descendant::*[@text:id]"):
+                ident = h.get_attribute_string("text:id")
+                if ident in want:
+                    expect(h, want[ident][1], f"{recv_name}.xpath", want[ident][0])
         # parent of a child of each class instance
         for qn, cls, ident in holders:
             q = f'descendant::{qn}[@text:id="{ident}"]'
@@ -436,8 +468,7 @@ def run_shard(ctx):
             ctx.ev()
             try:
                 run_case(case, ctx)
-                if ctx.evaluations % 1501 == 0:
-                    ctx.sample(case)
+                ctx.maybe_sample(case, 1501)
             except Abandon:
                 pass
         return t
